@@ -64,7 +64,22 @@ EulerMartingale == scheme \in {"localvol_const", "localvol_lin"} =>
                         IN  RAdd(up, dn) = RMul(R(2), cur)
 \* a jump model without jumps is the diffusion
 JumpFreeReduction == (scheme = "merton" /\ (\A j \in 1..Len(ns) : ns[j] = 0)) => \A j \in 1..Len(path) : path[j][3] = 0 /\ path[j][4] = 0
+\* ---------------------------------------------------------------- design-level moment algebra (exponential models)
+\* Per unit of time the log-price drifts by  DriftCoef . <<mu, sigma^2 / 2, lambda * E[e^J - 1]>>  (this vector is emitted and
+\* the path-wise replay binds it to the code).  By the moment-generating functions of the Gaussian increment
+\* (E exp(sigma W_t) = exp(sigma^2 t / 2)) and of the compound-Poisson sum (E exp(sum J) = exp(lambda t E[e^J - 1])) the mean
+\* growth rate of the PRICE is DriftCoef + MGFCoef: it must be <<1, 0, 0>>, i.e. E[S_t] = S_0 exp(mu t) - the Ito correction
+\* and the jump compensator cancel exactly, and the model is a martingale for mu = 0.
+DriftCoef(sc) == CASE sc = "gbm" -> <<1, -1, 0>> [] sc = "merton" -> <<1, -1, -1>> [] sc = "kou" -> <<1, -1, -1>> [] OTHER -> <<1, 0, 0>>
+MGFCoef(sc)   == CASE sc = "gbm" -> <<0, 1, 0>>  [] sc = "merton" -> <<0, 1, 1>>  [] sc = "kou" -> <<0, 1, 1>>  [] OTHER -> <<0, 0, 0>>
+MeanGrowthIsMu == \A sc \in {"gbm", "merton", "kou"} : [j \in 1..3 |-> DriftCoef(sc)[j] + MGFCoef(sc)[j]] = <<1, 0, 0>>
+\* Ornstein-Uhlenbeck: conditional mean theta + (x - theta) mu^k is what the noise-free recurrence gives (c0 = mu^k), and
+\* the conditional variance vola^2 * sum_j mu^(2j) equals vola^2 (1 - mu^(2k)) / (1 - mu^2): checked for mu = 1/2
+RECURSIVE GeoSq(_)
+GeoSq(j) == IF j = 0 THEN RZero ELSE RAdd(RMul(GeoSq(j - 1), Q(1, 4)), ROne)
+OUVariance == \A j \in 0..6 : GeoSq(j) = RDiv(RSub(ROne, Q(1, IPow(4, j))), Q(3, 4))
+
 Terminates == <>(k = Last)
 
-Emit == (k = Last) => PrintT(ToJson([scheme |-> scheme, zs |-> zs, ns |-> ns, ys |-> ys, path |-> path]))
+Emit == (k = Last) => PrintT(ToJson([scheme |-> scheme, zs |-> zs, ns |-> ns, ys |-> ys, path |-> path, drift |-> DriftCoef(scheme)]))
 =============================================================================
